@@ -175,6 +175,19 @@ def exhaustive(tier):
     for spec in fl:
         for script in scripts:
             yield {"spec": spec, "witness": spec["min"], "rng": script, "seed": None}
+    # declarations the library refuses today; should a change make one of them declarable, a conforming value exists
+    # and generation must serve it (counted as skip:undeclarable-spec while they are refused)
+    refused = [{"t": "str", "len": lf, "pattern": p, "order": ["len", "pattern"]}
+               for lf in (["min", 40], ["range", 1, 3], ["max", 2], ["eq", 36]) for p in ("[a-z]+", "[0-9]+", "^x*$")]
+    refused += [{"t": "str", "alphabet": "ab", "pattern": "[ab]{40}", "order": ["alphabet", "pattern"]},
+                {"t": "str", "substr": "ab", "pattern": "(?:ab)+c", "order": ["substr", "pattern"]},
+                {"t": "float", "value": 1}, {"t": "float", "value": 2, "min": 1.0, "max": 3.0, "order": ["min", "max"]},
+                {"t": "float", "min": 0, "max": 1, "order": ["min", "max"]}, {"t": "int", "value": 1.0}, {"t": "int", "min": 0.5},
+                {"t": "bool", "value": 1}, {"t": "bytes", "value": "ab"}, {"t": "str", "value": "ab", "pattern": "b$"}]
+    for spec in refused:
+        for wrap in (spec, {"t": "list", "form": "typed", "elem": spec, "len": ["eq", 2]}):
+            for script in scripts[:3]:
+                yield {"spec": wrap, "witness": _ANYVAL, "rng": script, "seed": None}
     for p in FORMATS:
         base = {"t": "str", "pattern": p}
         for spec in (base, {"t": "list", "form": "typed", "elem": base, "len": ["eq", 2]},
